@@ -301,6 +301,14 @@ func checkEofNotLost(c *core.Ctx, rule string, fns []*ssa.Function) int {
 						continue
 					}
 				}
+				// `return eofToError(eof)`: the error returned is computed by a module helper from the eof
+				// answer of R or of a later read; evaluated with that answer = true it is non-nil
+				if hasErr && eofHelperFails(s, func(v ssa.Value) bool {
+					rd, isRead := eofOf[v]
+					return isRead && (rd.call == R.call || after.Instr(rd.call))
+				}) {
+					continue
+				}
 				if r.SinkReachable(s) && bad == "" {
 					what := "is discarded"
 					if R.eof != nil {
